@@ -1,6 +1,7 @@
 package main
 
 import (
+	"bufio"
 	"bytes"
 	"fmt"
 	"math"
@@ -1379,7 +1380,166 @@ func (r *runner) wideMonitor(op string, args []int64, now map[int]item, res stri
 }
 
 // Run executes one script on the real implementation.
+// ---------------------------------------------------------------- API probe (child process, watchdog)
+//
+// A forgotten Lock() (the deferred Unlock then hits an unlocked mutex: FATAL, no recover) or a forgotten Unlock() (the next
+// call never returns) would kill or hang this runner at its first script. So before the first script of a process every
+// public method of both caches and of the wide caches is called twice on valid input in a CHILD process that announces
+// each call; if the child dies or stops announcing for 30 s, the call it announced last is reported as a monitor hit and
+// no script of this process touches the caches any more (the harness itself neither dies nor hangs).
+
+var probeOnce sync.Once
+var probeKey, probeWhat string
+
+func probeChild() {
+	say := func(s string) { fmt.Println("call " + s) }
+	for _, kind := range []string{"cache.LRUCache", "tiny.LRUCache"} {
+		for round := 0; round < 2; round++ {
+			var a lruAPI
+			if kind == "tiny.LRUCache" {
+				a = tinyAd{tiny.NewLRUCache(3)}
+			} else {
+				a = sizedAd{cache.NewLRUCache(3)}
+			}
+			for rep := 0; rep < 2; rep++ {
+				say(kind + " Set")
+				a.Set(1, 1, 1)
+				say(kind + " SetIfAbsent")
+				a.SetIfAbsent(2, 2, 1)
+				say(kind + " SetAndGetRemoved")
+				a.SetAndGetRemoved(3, 3, 1)
+				say(kind + " Get")
+				a.Get(1)
+				say(kind + " Peek")
+				a.Peek(2)
+				say(kind + " Exist")
+				a.Exist(3)
+				say(kind + " Keys")
+				a.Keys()
+				say(kind + " Items")
+				a.Items()
+				say(kind + " Stats")
+				a.Stats()
+				for _, m := range []string{"Length", "Size", "Capacity", "Evictions"} {
+					say(kind + " " + m)
+					switch x := a.(type) {
+					case sizedAd:
+						map[string]func() int64{"Length": x.c.Length, "Size": x.c.Size, "Capacity": x.c.Capacity, "Evictions": x.c.Evictions}[m]()
+					case tinyAd:
+						map[string]func() int64{"Length": x.c.Length, "Size": x.c.Size, "Capacity": x.c.Capacity, "Evictions": x.c.Evictions}[m]()
+					}
+				}
+				say(kind + " StatsJSON")
+				switch x := a.(type) {
+				case sizedAd:
+					_ = x.c.StatsJSON()
+				case tinyAd:
+					_ = x.c.StatsJSON()
+				}
+				say(kind + " SetCapacity")
+				a.SetCapacity(2)
+				say(kind + " Delete")
+				a.Delete(1)
+				say(kind + " Clear")
+				a.Clear()
+			}
+		}
+	}
+	for _, kind := range []string{"cache.WideLRUCache", "tiny.WideLRUCache"} {
+		var w wideAPI
+		if kind == "tiny.WideLRUCache" {
+			w = wideTiny{tiny.NeWideLRU(10, remap.WithPrime(3)), false}
+		} else {
+			w = wideSized{cache.NeWideLRUCache(10, remap.WithPrime(3)), false}
+		}
+		for rep := 0; rep < 2; rep++ {
+			say(kind + " Set")
+			w.Set(1, 1, 1)
+			say(kind + " Get")
+			w.Get(1)
+			say(kind + " Peek")
+			w.Peek(1)
+			say(kind + " Exist")
+			w.Exist(1)
+			say(kind + " Delete")
+			w.Delete(1)
+		}
+	}
+	fmt.Println("done")
+}
+
+func runProbe() {
+	exe, err := os.Executable()
+	if err != nil {
+		return
+	}
+	cmd := exec.Command(exe, "probechild")
+	var errb bytes.Buffer
+	cmd.Stderr = &errb
+	pipe, err := cmd.StdoutPipe()
+	if err != nil || cmd.Start() != nil {
+		return
+	}
+	lines := make(chan string, 1024)
+	go func() {
+		sc := bufio.NewScanner(pipe)
+		for sc.Scan() {
+			lines <- sc.Text()
+		}
+		close(lines)
+	}()
+	last, finished := "(nothing yet)", false
+loop:
+	for {
+		select {
+		case l, ok := <-lines:
+			if !ok {
+				break loop
+			}
+			if l == "done" {
+				finished = true
+			} else {
+				last = strings.TrimPrefix(l, "call ")
+			}
+		case <-time.After(30 * time.Second):
+			_ = cmd.Process.Kill()
+			f := strings.Fields(last)
+			if len(f) == 2 {
+				probeKey = "C04:" + f[0] + ":" + f[1] + ":never-returns"
+			} else {
+				probeKey = "C04:api:never-returns"
+			}
+			probeWhat = "a plain call sequence on a fresh cache of capacity 3 stopped at `" + last + "`: the call did not return within 30 s (a lock that is never released?)"
+			return
+		}
+	}
+	werr := cmd.Wait()
+	if finished && werr == nil {
+		return
+	}
+	tail := errb.String()
+	if i := strings.Index(tail, "goroutine "); i > 0 {
+		tail = tail[:i]
+	}
+	f := strings.Fields(last)
+	if len(f) == 2 {
+		probeKey = "C04:" + f[0] + ":" + f[1] + ":kills-the-process"
+	} else {
+		probeKey = "C04:api:kills-the-process"
+	}
+	probeWhat = "a plain call sequence on a fresh cache of capacity 3 died in `" + last + "`: " + strings.TrimSpace(strings.ReplaceAll(tail, "\n", " | "))
+}
+
 func runCase(c corr.Case) corr.Result {
+	probeOnce.Do(runProbe)
+	if probeKey != "" {
+		var res corr.Result
+		for range c.Lines {
+			res.Outs = append(res.Outs, "skipped: the cache API is unusable in this build")
+		}
+		res.Hits = []corr.Hit{{Key: probeKey, What: probeWhat}}
+		return res
+	}
 	r := &runner{seenHit: map[string]bool{}}
 	var res corr.Result
 	for _, l := range c.Lines {
